@@ -142,12 +142,23 @@ def tx1(model):
 def oks(model):
     r = RuleResult('OKS', 'entries of a character map are signed (a negative entry marks an '
                    'unsure position): every read is wrapped directly in abs() or compared with '
-                   '0; arithmetic on raw entries is a kind error', floor=6)
+                   '0; arithmetic on raw entries is a kind error', floor=4)
     sites = [('shell.utils.map_match_position', 2), ('shell.genhtml.generate_html', 1)]
     names = []
     for q, idx in sites:
         f = model.func(q)
         names.append((f, f.params[idx]))
+    # the collect phase of generate_html may live in a helper that receives the map
+    from .th import html_phases
+    ph = html_phases(model)
+    if ph['collect'] and ph['collect'][0].qname != 'shell.genhtml.generate_html':
+        hf = ph['collect'][0]
+        g = model.func('shell.genhtml.generate_html')
+        for c in ast.walk(g.node):
+            if isinstance(c, ast.Call) and (model.resolve_call(c) or (0, 0))[1] is hf:
+                for i, a in enumerate(c.args):
+                    if isinstance(a, ast.Name) and a.id == g.params[1] and i < len(hf.params):
+                        names.append((hf, hf.params[i]))
     from .ok import sort_key_function
     f = sort_key_function(model)
     outer = model.func('shell.proofreader.run_proofreader_options')
@@ -273,7 +284,7 @@ def df1(model):
         raise AnalysisError('anchor vanished: h_load_defs parses the file with parser_work')
     for c in hc:
         _flows_only_into_filter(model, h, c, r, '\\LTinput')
-        doms = dominating_stmts(c)
+        doms = T.explode_assigns(dominating_stmts(c))
         save = [x for x in doms if isinstance(x, ast.Assign) and isinstance(x.value, ast.Attribute)
                 and x.value.attr == 'extracted' and isinstance(x.targets[0], ast.Name)]
         cleared = [x for x in doms if isinstance(x, ast.Assign) and isinstance(x.targets[0], ast.Attribute)
